@@ -44,7 +44,7 @@ ENGINES = c09run.ENGINES
 TIERS = {
     'quick': dict(programs=120, bulk=False, shards=8, pool=common.NCPU,
                   mc=[('Br', 6), ('Scope', 6), ('With', 5), ('Misc', 5)]),
-    'thorough': dict(programs=1800, bulk=True, shards=common.NCPU,
+    'thorough': dict(programs=1500, bulk=True, shards=common.NCPU,
                      pool=common.NCPU,
                      mc=[('Br', 7), ('Scope', 7), ('With', 6), ('Misc', 6)]),
 }
@@ -72,6 +72,13 @@ RULE = (
     'scoping, WITH/CREATE before use, no placeholder).')
 
 
+def _Cpu():
+  import resource
+  return sum(getattr(resource.getrusage(w), a)
+             for w in (resource.RUSAGE_SELF, resource.RUSAGE_CHILDREN)
+             for a in ('ru_utime', 'ru_stime'))
+
+
 def _Log(msg):
   print('[c09] ' + msg, file=sys.stderr, flush=True)
 
@@ -96,9 +103,96 @@ def _Annotate(rng, prog, query):
   return ann
 
 
+# Hand-written typed programs for shapes the generator does not produce:
+# field access on a record-valued column, a @Ground chain with Range / `in`,
+# @OrderBy + @Limit, and string literals whose CONTENT looks like residue
+# (must not be reported: it is inside literals).
+FIXED = [
+    ('record_column', ['Q', 'R'],
+     'E(1, {a: 1, b: "u"});\nE(2, {a: 2, b: "v"});\nQ(r.a) :- E(x, r);\n'
+     'R(x, c: r.b) :- E(x, r), r.a > 1;\n'),
+    ('ground_chain', ['P', 'Q', 'R', 'S'],
+     '@Ground(P);\n@Ground(Q);\n@NoWith(E);\nE(1, "a");\nE(2, "b");\n'
+     'P(x, s) :- E(x, s), x > 0;\nQ(x, l) :- P(x, s), l == [x, 2];\n'
+     'R(y, r: {a: y, b: s}) :- Q(x, l), y in l, P(y, s);\n'
+     'S(z) :- R(y, r:), z == r.b, z in ["a", "b"], Size(Range(y)) > 0;\n'),
+    ('order_limit', ['P', 'Q'],
+     '@OrderBy(P, "col0 desc", "col1");\n@Limit(P, 2);\nE(1, "a");\n'
+     'E(2, "b");\nE(3, "c");\nP(x, s) :- E(x, s);\n'
+     'Q(x) :- P(x, s), ~E(x + 1, s);\n'),
+    ('literal_content', ['T', 'U'],
+     'S("it\'s");\nS("q\'q\'\'q");\n'
+     'S("{0} %s /* nil */ -- None; UNUSED ( [ `");\n'
+     'T(s ++ " {x} ") :- S(s);\n'
+     'U(n? Count= s) distinct :- S(s), s != "{y} $";\n'),
+]
+
+
+# Converse demonstration inside every run: hand-made scripts with one defect
+# each; SqlScopeTrace must reject them with the named clause (and accept the
+# repaired twin), otherwise the run is a machinery failure.
+SELFTEST = [
+    ('sqlite', ['SELECT a.x FROM t AS b'], 'alias'),
+    ('sqlite', ['SELECT a.x FROM t AS a'], ''),
+    ('sqlite', ['SELECT (SELECT b.x FROM u AS b) AS c, b.y FROM t AS a'],
+     'alias'),
+    ('sqlite', ['SELECT (SELECT a.x FROM u AS b) AS c, a.y FROM t AS a'], ''),
+    ('sqlite', ['SELECT a.x FROM t AS a UNION ALL SELECT a.y FROM u AS b'],
+     'alias'),
+    ('sqlite', ['WITH t_1_A AS (SELECT 1 AS x FROM t_0_B AS B), t_0_B AS '
+                '(SELECT 1) SELECT A.x FROM t_1_A AS A'], 'with-order'),
+    ('sqlite', ['WITH t_0_B AS (SELECT 1), t_1_A AS (SELECT 1 AS x FROM '
+                't_0_B AS B) SELECT A.x FROM t_1_A AS A'], ''),
+    ('sqlite', ['SELECT P.col0 FROM logica_test.P AS P',
+                'CREATE TABLE logica_test.P AS SELECT 1 AS col0;'],
+     'with-order'),
+    ('sqlite', ['CREATE TABLE logica_test.P AS SELECT 1 AS col0;',
+                'SELECT P.col0 FROM logica_test.P AS P'], ''),
+    ('trino', ['SELECT ARRAY[1, 2 FROM t AS a'], 'bracket'),
+    ('trino', ['SELECT ARRAY[1, 2] FROM t AS a'], ''),
+    ('sqlite', ["SELECT 'abc FROM t"], 'string'),
+    ('bigquery', ['SELECT "abc\\" FROM t'], 'string'),
+    ('psql', ["SELECT (E.col1).a, E'it\\'s' FROM t AS E"], ''),
+    ('sqlite', ['SELECT "unterminated FROM t'], 'bracket'),
+    ('duckdb', ['SELECT LEN({0}) AS x'], 'placeholder'),
+    ('duckdb', ['SELECT {a: 1, b: [2]} AS r'], ''),
+    ('psql', ['SELECT {a: 1} AS r'], 'placeholder'),
+    ('sqlite', ['SELECT JSON_GROUP_ARRAY(None) AS x'], 'placeholder'),
+    ('sqlite', ['SELECT x %s y'], 'placeholder'),
+    ('sqlite', ['/* nil */ SELECT 1'], 'placeholder'),
+]
+
+
+def SelfTestLines():
+  """[(id, json line without id, number of events)]"""
+  from harness import sqllex
+  lines = []
+  for k, (d, texts, _) in enumerate(SELFTEST):
+    rec = {}
+    c09run.Attach(rec, sqllex.Script(texts, d), d)
+    lines.append(('selftest%02d' % k, rec['line'],
+                  sum(rec['kinds'].values())))
+  return lines
+
+
+def SelfTestFailures(verdicts):
+  bad = []
+  for k, (d, texts, clause) in enumerate(SELFTEST):
+    v = verdicts.get('selftest%02d' % k)
+    if v is None or v['clause'] != clause:
+      bad.append('self-test %d (%s) expected clause %r, got %r' % (
+          k, texts[0][:60], clause, v and v['clause']))
+  return bad
+
+
 def GeneratedItems(n):
   items = []
   feats = collections.Counter()
+  for name, preds, body in FIXED:
+    for e in ENGINES:
+      items.append({'id': 'f/%s/%s' % (name, e), 'engine': e, 'preds': preds,
+                    'text': '@Engine("%s");\n%s' % (e, body),
+                    'meta': {'kind': 'fixed', 'name': name}})
   for k in range(n):
     pname, prof = PROFILES[k % len(PROFILES)]
     rng = common.Rng('c09/%s/%d' % (pname, k))
@@ -129,25 +223,25 @@ def ParseVerdicts(out):
 
 
 def ValidateTraces(lines, tag, shards):
-  """lines: [{'id','d','ev','strs'}] -> ({id: verdict}, stats, errors)."""
+  """lines: [(id, json text of {'d','ev','strs'}, number of events)]
+  -> ({id: verdict}, stats, errors).  One TLC (1 worker) per shard."""
   d = common.BuildDir('trace', tag)
   for f in os.listdir(d):
     os.unlink(os.path.join(d, f))
-  # balance the shards by number of events
-  order = sorted(lines, key=lambda l: -len(l['ev']))
+  order = sorted(lines, key=lambda l: -l[2])
   shards = max(1, min(shards, len(lines)))
   parts = [[] for _ in range(shards)]
   load = [0] * shards
-  for l in order:
+  for l in order:                      # balance by number of events
     s = load.index(min(load))
     parts[s].append(l)
-    load[s] += len(l['ev']) + 20
+    load[s] += l[2] + 20
   paths = []
   for s, part in enumerate(parts):
     path = os.path.join(d, 'shard%02d.ndjson' % s)
     with open(path, 'w') as f:
-      for l in part:
-        f.write(json.dumps(l, separators=(',', ':')) + '\n')
+      for lid, text, _ in part:
+        f.write('{"id":"%s",%s\n' % (lid, text[1:]))
     paths.append(path)
 
   def One(path):
@@ -187,108 +281,153 @@ def ModelRuns(cfg, pool):
   return futs
 
 
+# ---- outcomes ------------------------------------------------------------------
+
+NONTRIVIAL = ('ref', 'use', 'create', 'with', 'withrec')
+
+
+class Outcomes:
+  """Folds worker results: outcome classes per engine, INTERNAL problems,
+  the distinct traces to send to TLC and who produced them.  Heavy fields are
+  dropped as soon as a result is folded (thorough tier: ~50k compilations)."""
+
+  def __init__(self):
+    self.per = {e: collections.Counter() for e in ENGINES}
+    self.problems = []        # [(signature, {'item', 'pred', 'outcome'})]
+    self.lines = {}           # key -> (json text, n events, non-trivial)
+    self.owners = collections.defaultdict(list)   # key -> [(item id, pred)]
+    self.executed = set()     # keys of scripts SQLite executed
+    self.n_executed = 0
+    self.sqlite_errors = []
+    self.evaluations = 0
+    self.kinds = collections.Counter()
+    self.events = 0
+    self.strs = 0
+
+  def Add(self, items_by_id, results):
+    for res in results:
+      it = items_by_id[res['id']]
+      e = res['engine']
+      if res['parse'] is not None:
+        pr = res['parse']
+        self.evaluations += 1
+        self.per[e]['parse_' + pr['status']] += 1
+        if pr['status'] == 'internal':
+          self.problems.append((
+              {'kind': 'internal', 'engine': e, 'stage': 'parse',
+               'cls': pr['cls'], 'msg': pr['msg'],
+               'frames': ' '.join(pr['frames'])},
+              {'item': it, 'pred': None, 'outcome': pr}))
+        continue
+      for p, rec in res['preds'].items():
+        self.evaluations += 1
+        self.per[e][rec['status']] += 1
+        if rec['status'] == 'internal':
+          self.problems.append((
+              {'kind': 'internal', 'engine': e, 'stage': 'compile',
+               'cls': rec['cls'], 'msg': rec['msg'],
+               'frames': ' '.join(rec['frames'])},
+              {'item': it, 'pred': p,
+               'outcome': {k: rec[k] for k in ('cls', 'msg', 'tb')}}))
+        elif rec['status'] == 'diag':
+          self.per[e]['diag:' + rec['cls']] += 1
+        else:
+          key = rec['key']
+          self.per[e]['statements'] += rec['kinds'].get('end', 0)
+          if key not in self.lines:
+            nev = sum(rec['kinds'].values())
+            self.lines[key] = (rec['line'], nev,
+                               any(rec['kinds'].get(k) for k in NONTRIVIAL))
+            self.kinds.update(rec['kinds'])
+            self.events += nev
+            self.strs += rec['nstr']
+          self.owners[key].append((res['id'], p))
+          if rec['exec'] == 'ok':
+            self.executed.add(key)
+            self.n_executed += 1
+          elif rec['exec'] == 'error':
+            self.sqlite_errors.append({'id': res['id'], 'pred': p,
+                                       'msg': rec['exec_msg']})
+
+  def Judge(self, items_by_id, tag, shards):
+    """TLC verdicts -> (stats, sql problems, calibration mismatches, errors)."""
+    todo = [(k, v[0], v[1]) for k, v in self.lines.items()] + SelfTestLines()
+    verdicts, tstats, errors = ValidateTraces(todo, tag, shards)
+    selftest_bad = SelfTestFailures(verdicts)
+    problems, calib_bad = [], []
+    validated = accepted_exec = 0
+    for key in sorted(self.lines):
+      v = verdicts.get(key)
+      if v is None:
+        continue
+      validated += len(self.owners[key])
+      for iid, _ in self.owners[key]:
+        e = items_by_id[iid]['engine']
+        self.per[e]['accepted' if v['ok'] else 'rejected'] += 1
+      if v['ok']:
+        if key in self.executed:
+          accepted_exec += sum(
+              1 for iid, _ in self.owners[key] if iid.endswith('/sqlite'))
+        continue
+      iid, p = self.owners[key][0]
+      it = items_by_id[iid]
+      again = c09run.CompileItem(dict(it, preds=[p], keep_texts=True,
+                                      execute=False))
+      sig = {'kind': 'sql', 'engine': it['engine'], 'clause': v['clause'],
+             'detail': v['detail']}
+      payload = {'item': it, 'pred': p, 'verdict': v,
+                 'texts': again['preds'].get(p, {}).get('texts'),
+                 'trace': json.loads(self.lines[key][0]),
+                 'same_trace': len(self.owners[key])}
+      if key in self.executed and v['clause'] != 'placeholder':
+        calib_bad.append((sig, payload))
+      else:
+        problems.append((sig, payload))
+    stats = {
+        'evaluations': self.evaluations,
+        'per_engine': {e: dict(self.per[e]) for e in ENGINES},
+        'traces': len(self.lines),
+        'traces_nontrivial': sum(1 for v in self.lines.values() if v[2]),
+        'events': self.events,
+        'string_tokens': self.strs,
+        'validated': validated,
+        'calibration_executed': self.n_executed,
+        'calibration_accepted': accepted_exec,
+        'sqlite_errors': self.sqlite_errors,
+        'tlc': tstats,
+        'selftest_cases': len(SELFTEST),
+        'selftest_failures': selftest_bad,
+        'event_kinds': dict(self.kinds),
+    }
+    return stats, problems, calib_bad, errors
+
+
 # ---- run -----------------------------------------------------------------------
 
-def _Key(engine, trace):
-  return common.Sha([engine, trace])
-
-
-def _NonTrivial(trace):
-  return any(e[0] in ('ref', 'use', 'create', 'with', 'withrec')
-             for e in trace['ev'])
-
-
-def Judge(items, results, klass, tag, shards):
-  """Outcome classes + TLC verdicts -> (stats, problems)."""
-  per = {e: collections.Counter() for e in ENGINES}
-  problems = []       # [(signature, payload)]
-  lines, owners = {}, collections.defaultdict(list)
-  by_id = {it['id']: it for it in items}
-  evaluations = 0
-  calib = []
-  sqlite_errors = []
-  for res in results:
-    it = by_id[res['id']]
-    e = res['engine']
-    if res['parse'] is not None:
-      pr = res['parse']
-      evaluations += 1
-      per[e]['parse_' + pr['status']] += 1
-      if pr['status'] == 'internal':
-        problems.append(({'kind': 'internal', 'engine': e, 'stage': 'parse',
-                          'cls': pr['cls'], 'msg': pr['msg'],
-                          'frames': ' '.join(pr['frames'])},
-                         {'item': it, 'outcome': pr}))
+def _Report(klass, problems, limit=3):
+  """Prints VIOLATION lines (at most `limit` replay files per signature group)
+  for problems that are not listed findings; returns (#printed, #suppressed)."""
+  nviol = 0
+  seen = collections.Counter()
+  for sig, payload in problems:
+    if klass.Match(sig):
       continue
-    for p, rec in res['preds'].items():
-      evaluations += 1
-      per[e][rec['status']] += 1
-      if rec['status'] == 'internal':
-        problems.append(({'kind': 'internal', 'engine': e, 'stage': 'compile',
-                          'cls': rec['cls'], 'msg': rec['msg'],
-                          'frames': ' '.join(rec['frames'])},
-                         {'item': it, 'pred': p, 'outcome': {
-                             k: rec[k] for k in ('cls', 'msg', 'tb')}}))
-      elif rec['status'] == 'diag':
-        per[e]['diag:' + rec['cls']] += 1
-      else:
-        per[e]['statements'] += sum(
-            1 for ev in rec['trace']['ev'] if ev[0] == 'end')
-        key = _Key(e, rec['trace'])
-        if key not in lines:
-          lines[key] = {'id': key, 'd': e, 'ev': rec['trace']['ev'],
-                        'strs': rec['trace']['strs']}
-        owners[key].append((res['id'], p))
-        if rec['exec'] == 'ok':
-          calib.append((key, res['id'], p))
-        elif rec['exec'] == 'error':
-          sqlite_errors.append({'id': res['id'], 'pred': p,
-                                'msg': rec['exec_msg']})
-  verdicts, tstats, errors = ValidateTraces(list(lines.values()), tag, shards)
-  texts = {}
-  for res in results:
-    for p, rec in res['preds'].items():
-      if rec['status'] == 'ok':
-        texts[(res['id'], p)] = rec['texts']
-  bad_keys = {k for k, v in verdicts.items() if not v['ok']}
-  calib_bad = []
-  for key in sorted(bad_keys):
-    v = verdicts[key]
-    for (iid, p) in owners[key]:
-      it = by_id[iid]
-      per[it['engine']]['rejected'] += 1
-    iid, p = owners[key][0]
-    it = by_id[iid]
-    executed = any(k == key for k, _, _ in calib)
-    sig = {'kind': 'sql', 'engine': it['engine'], 'clause': v['clause'],
-           'detail': v['detail']}
-    payload = {'item': it, 'pred': p, 'verdict': v, 'texts': texts[(iid, p)],
-               'trace': lines[key], 'same_trace': len(owners[key])}
-    if executed and v['clause'] != 'placeholder':
-      calib_bad.append((sig, payload))
-    else:
-      problems.append((sig, payload))
-  for key, owner in owners.items():
-    if key in verdicts and verdicts[key]['ok']:
-      for (iid, p) in owner:
-        per[by_id[iid]['engine']]['accepted'] += 1
-  stats = {
-      'evaluations': evaluations,
-      'per_engine': {e: dict(per[e]) for e in ENGINES},
-      'traces': len(lines),
-      'traces_nontrivial': sum(1 for l in lines.values() if _NonTrivial(l)),
-      'events': sum(len(l['ev']) for l in lines.values()),
-      'string_tokens': sum(len(l['strs']) for l in lines.values()),
-      'validated': sum(len(owners[k]) for k in verdicts),
-      'calibration_executed': len(calib),
-      'calibration_accepted': sum(
-          1 for k, _, _ in calib if k in verdicts and verdicts[k]['ok']),
-      'sqlite_errors': sqlite_errors,
-      'tlc': tstats,
-      'event_kinds': dict(collections.Counter(
-          e[0] for l in lines.values() for e in l['ev'])),
-  }
-  return stats, problems, calib_bad, errors, lines, owners
+    group = json.dumps({k: sig[k] for k in sorted(sig) if k != 'msg'},
+                       sort_keys=True)
+    seen[group] += 1
+    if seen[group] > limit:
+      continue
+    nviol += 1
+    it = payload['item']
+    name = 'c09_%s_%s' % (sig['kind'], common.Sha([sig, it['id'],
+                                                   payload.get('pred')]))
+    path = common.WriteReplay(PROP, name, {
+        'signature': sig, 'engine': it['engine'], 'text': it['text'],
+        'item': it['id'], 'pred': payload.get('pred'), 'preds': it['preds'],
+        'observed': payload.get('outcome') or payload.get('verdict'),
+        'sql': payload.get('texts'), 'trace': payload.get('trace')})
+    common.Violation(PROP, path)
+  return nviol, sum(max(0, c - limit) for c in seen.values())
 
 
 def Run(tier):
@@ -302,20 +441,36 @@ def Run(tier):
 
   items, feats = GeneratedItems(cfg['programs'])
   bitems, bplan = c09builtins.Items(cfg['bulk'])
-  _Log('%d generated items, %d built-in items' % (len(items), len(bitems)))
-  all_items = items + bitems
-  results = common.ParallelMap(c09run.CompileItem, all_items,
-                               workers=cfg['pool'], chunksize=4)
-  _Log('compiled at %.1fs' % clock())
-  stats, problems, calib_bad, errors, lines, owners = Judge(
-      all_items, results, klass, 'c09', cfg['shards'])
+  _Log('%d generated/fixed items, %d built-in items' % (len(items),
+                                                        len(bitems)))
+  all_items = bitems + items
+  by_id = {it['id']: it for it in all_items}
+  out = Outcomes()
+  bresults = []
+  batch = 1600
+  for i in range(0, len(all_items), batch):
+    part = all_items[i:i + batch]
+    results = common.ParallelMap(c09run.CompileItem, part,
+                                 workers=cfg['pool'], chunksize=4)
+    out.Add(by_id, results)
+    for r in results:                   # built-in coverage needs status only
+      if r['id'].startswith('b/'):
+        for rec in r['preds'].values():
+          for k in ('line', 'kinds', 'tb'):
+            rec.pop(k, None)
+        bresults.append(r)
+    del results
+    _Log('compiled %d/%d items at %.1fs' % (min(i + batch, len(all_items)),
+                                            len(all_items), clock()))
+  stats, problems, calib_bad, errors = out.Judge(by_id, 'c09', cfg['shards'])
   _Log('judged at %.1fs' % clock())
-  bstats = c09builtins.Coverage(bitems, results, bplan)
+  bstats = c09builtins.Coverage(bitems, bresults, bplan)
 
   machinery = []
   if errors:
     machinery.append('SqlScopeTrace did not finish on %d shard(s): %s' % (
         len(errors), errors[0][2][-800:]))
+  machinery += stats['selftest_failures']
   mc_stats = {}
   for name, maxlen, fut in mc:
     r = fut.result()
@@ -325,28 +480,7 @@ def Run(tier):
       machinery.append('MCSqlScope_%s failed: %s' % (name, r.out[-800:]))
   pool.shutdown()
 
-  # violations / known findings
-  nviol = 0
-  seen = collections.Counter()
-  for sig, payload in problems:
-    if klass.Match(sig):
-      continue
-    group = json.dumps({k: sig[k] for k in sorted(sig) if k != 'msg'},
-                       sort_keys=True)
-    seen[group] += 1
-    if seen[group] > 3:     # one replay file per group is enough; keep three
-      continue
-    nviol += 1
-    it = payload['item']
-    name = 'c09_%s_%s' % (sig['kind'], common.Sha([sig, it['id'],
-                                                   payload.get('pred')]))
-    path = common.WriteReplay(PROP, name, {
-        'signature': sig, 'engine': it['engine'], 'text': it['text'],
-        'pred': payload.get('pred'), 'preds': it['preds'],
-        'observed': payload.get('outcome') or payload.get('verdict'),
-        'sql': payload.get('texts'), 'trace': payload.get('trace')})
-    common.Violation(PROP, path)
-  suppressed = sum(max(0, c - 3) for c in seen.values())
+  nviol, suppressed = _Report(klass, out.problems + problems)
   for sig, payload in calib_bad:
     machinery.append('CALIBRATION-MISMATCH: SQLite executed a script that '
                      'SqlScopeTrace rejects (%s): %s' % (
@@ -356,30 +490,29 @@ def Run(tier):
   # vacuity (R4)
   for e in ENGINES:
     if not stats['per_engine'][e].get('accepted'):
-      if not any(s['kind'] == 'internal' and s['engine'] == e
-                 for s, _ in problems):
-        machinery.append('no compiled statement was validated for ' + e)
+      machinery.append('no compiled statement was accepted for ' + e)
   for kind in ('open', 'close', 'select', 'from', 'union', 'alias', 'ref',
                'with', 'withrec', 'use', 'create', 'str', 'end'):
     if not stats['event_kinds'].get(kind):
       machinery.append('event kind %s never produced by the lexer' % kind)
-  if stats['calibration_executed'] < cfg['programs']:
+  if stats['calibration_executed'] < max(cfg['programs'], 1):
     machinery.append('calibration vacuous: SQLite executed only %d scripts' %
                      stats['calibration_executed'])
   for m in machinery:
     print('MACHINERY: ' + m[:3000], flush=True)
 
   samples = []
-  for key in list(lines)[:400]:
-    l = lines[key]
-    if _NonTrivial(l) and len(l['ev']) < 80:
-      iid, p = owners[key][0]
-      samples.append({'item': iid, 'pred': p, 'events': l['ev']})
+  for key, (text, nev, nontrivial) in out.lines.items():
+    if nontrivial and nev < 80:
+      iid, p = out.owners[key][0]
+      samples.append({'item': iid, 'pred': p, 'program': by_id[iid]['text'],
+                      'events': json.loads(text)['ev']})
     if len(samples) >= 3:
       break
   states = stats['tlc']['states'] + sum(m['states'] for m in mc_stats.values())
   trans = stats['tlc']['transitions'] + sum(
       m['transitions'] for m in mc_stats.values())
+  gen_err = [x for x in stats['sqlite_errors'] if not x['id'].startswith('b/')]
   coverage = {
       'evaluations': stats['evaluations'],
       'distinct_nontrivial': stats['traces_nontrivial'],
@@ -396,16 +529,24 @@ def Run(tier):
       'calibration': {
           'sqlite_scripts_executed_ok': stats['calibration_executed'],
           'of_which_accepted_by_SqlScopeTrace': stats['calibration_accepted'],
-          'sqlite_execution_errors': len(stats['sqlite_errors']),
-          'sqlite_execution_error_samples': stats['sqlite_errors'][:5]},
+          'sqlite_execution_errors_generated_programs': len(gen_err),
+          'sqlite_execution_errors_builtin_programs':
+              len(stats['sqlite_errors']) - len(gen_err),
+          'sqlite_execution_error_samples':
+              (gen_err + stats['sqlite_errors'])[:6]},
       'builtins': bstats,
       'generator_features': dict(feats),
       'programs': cfg['programs'],
+      'fixed_programs': [f[0] for f in FIXED],
       'model_check_SqlScope': mc_stats,
       'trace_tlc': stats['tlc'],
+      'defect_catalogue': '%d of %d hand-made scripts judged as expected' % (
+          stats['selftest_cases'] - len(stats['selftest_failures']),
+          stats['selftest_cases']),
       'known_findings': known_lines,
       'violations_not_replayed_same_group': suppressed,
       'machinery_failures': [m[:500] for m in machinery],
+      'cpu_s_self_and_children': round(_Cpu(), 1),
   }
   evidence.Write(
       PROP, tier, 'exploration', coverage, clock(), violations=nviol,
@@ -416,8 +557,8 @@ def Run(tier):
           'judged statically only',
           'internal errors are detected by monitoring the exception class of '
           'the real pipeline, not by the specification'])
-  _Log('done at %.1fs: %d evaluations, %d traces, violations=%d' % (
-      clock(), stats['evaluations'], stats['traces'], nviol))
+  _Log('done at %.1fs (cpu %.0fs): %d evaluations, %d traces, violations=%d'
+       % (clock(), _Cpu(), stats['evaluations'], stats['traces'], nviol))
   if nviol:
     return 1
   if machinery:
@@ -428,29 +569,21 @@ def Run(tier):
 def Replay(path):
   with open(path) as f:
     doc = json.load(f)
-  item = {'id': 'replay', 'engine': doc['engine'], 'text': doc['text'],
+  item = {'id': 'replay/' + doc['engine'], 'engine': doc['engine'],
+          'text': doc['text'],
           'preds': [doc['pred']] if doc.get('pred') else doc['preds']}
-  res = c09run.CompileItem(item)
+  by_id = {item['id']: item}
+  out = Outcomes()
+  out.Add(by_id, [c09run.CompileItem(item)])
   klass = findings.Classifier(PROP)
-  stats, problems, calib_bad, errors, _, _ = Judge(
-      [item], [res], klass, 'c09replay', 1)
+  stats, problems, calib_bad, errors = out.Judge(by_id, 'c09replay', 1)
   print(json.dumps({'signature_recorded': doc.get('signature'),
-                    'per_engine': stats['per_engine'][doc['engine']]},
+                    'now': stats['per_engine'][doc['engine']]},
                    sort_keys=True))
-  if errors:
-    print('MACHINERY: ' + errors[0][2][-1500:])
+  if errors or stats['selftest_failures']:
+    print('MACHINERY: ' + (errors[0][2][-1500:] if errors else
+                           '; '.join(stats['selftest_failures'])))
     return 2
-  bad = 0
-  for sig, payload in problems + calib_bad:
-    if klass.Match(sig):
-      continue
-    bad += 1
-    print('reproduced: %s' % json.dumps(sig, sort_keys=True))
-    path2 = common.WriteReplay(PROP, 'replayed_' + common.Sha(sig), {
-        'signature': sig, 'engine': doc['engine'], 'text': doc['text'],
-        'pred': payload.get('pred'), 'preds': item['preds'],
-        'observed': payload.get('outcome') or payload.get('verdict'),
-        'sql': payload.get('texts')})
-    common.Violation(PROP, path2)
+  nviol, _ = _Report(klass, out.problems + problems + calib_bad)
   klass.Report()
-  return 1 if bad else 0
+  return 1 if nviol else 0
